@@ -1097,6 +1097,15 @@ class Executor:
             v = frame.env[r]
             if isinstance(v, Alias):
                 v = st.read(v.loc)
+            if isinstance(v, VRec) and f not in st.store[v.rid]:
+                # reached through a property (e.g. selected.session_flags.add_recent): a trivial getter
+                # (`return self._x`) denotes that field; anything else havocs everything reachable from the record
+                fld = self.trivial_getter_field(v.sort, f)
+                if fld is not None and fld in st.store[v.rid]:
+                    self.havoc_field(v, fld)
+                else:
+                    self.havoc_record_deep(v)
+                continue
             self.havoc_field(v, f)
         for r in self._whole:
             v = frame.env.get(r)
@@ -1120,6 +1129,27 @@ class Executor:
         for g, v in self.st.ghost.items():
             if g not in lc.ghost and self._ghost_after_havoc_for.get(g) is not v:
                 raise Unsupported(f'ghost variable {g} is updated inside {where} but not declared in Loop(ghost=...)')
+
+    def trivial_getter_field(self, sort, name):
+        m = self.find_method(sort, name)
+        if m is None or not self.is_property(m[0]):
+            return None
+        body = [b for b in m[0].body if not (isinstance(b, ast.Expr) and isinstance(b.value, ast.Constant))]
+        if len(body) == 1 and isinstance(body[0], ast.Return) and isinstance(body[0].value, ast.Attribute) and \
+                isinstance(body[0].value.value, ast.Name) and body[0].value.value.id == 'self':
+            return body[0].value.attr
+        return None
+
+    def havoc_record_deep(self, rec, seen=None):
+        seen = seen if seen is not None else set()
+        if rec.rid in seen:
+            return
+        seen.add(rec.rid)
+        for f, cur in list(self.st.store[rec.rid].items()):
+            if isinstance(cur, VRec):
+                self.havoc_record_deep(cur, seen)
+            else:
+                self.st.store[rec.rid][f] = self.fresh_like(cur, f)
 
     def havoc_field(self, v, f, deep=True):
         st = self.st
@@ -1458,6 +1488,7 @@ class Executor:
                 return self.inline_call(prop, [base], {}, frame, key=f'{base.sort.name}.{attr}')
             raise Unsupported(f'attribute {base.sort.name}.{attr} not declared')
         if isinstance(base, VRef):
+            attr = getattr(base.sort, 'alias', {}).get(attr, attr)
             am = getattr(frame.contract, 'attr_models', {}).get((base.sort.name, attr))
             if am is not None:
                 return am(self, frame, base)
